@@ -170,6 +170,34 @@ func c03Variants() []c03Case {
 	hub("1-registered+duplicate+unregistered", []string{"hubval-2", "hubval-2", "stranger-1", "stranger-2"}, B, B, hubReq, false)
 	hub("3-unregistered", []string{"stranger-1", "stranger-2", "stranger-3"}, B, B, hubReq, false)
 	hub("2-registered-signed-other-status", []string{"hubval-1", "hubval-2"}, B, pb.TransactionStatus_SUCCESS, hubReq, false)
+	// this node as SOURCE hub: a receipt coming back from the remote hub must carry signatures
+	// over that very receipt - the signatures its validators made over the REQUEST (same from, to,
+	// index, payload, status BEGIN) do not authorise a receipt
+	toHub := fix.HubID("chainX", fix.SvcR)
+	preReqToHub := func(pw *preWorld) {
+		pw.w.Must(pw.w.Block(fix.IBTPTx(fix.KA, pw.w.N.Next(fix.KA), &pb.IBTP{From: fromA, To: toHub, Index: 1, Payload: pd}, good)))
+	}
+	for _, rt := range []struct {
+		name string
+		typ  pb.IBTP_Type
+		st   pb.TransactionStatus
+	}{{"failure", pb.IBTP_RECEIPT_FAILURE, pb.TransactionStatus_FAILURE}, {"success", pb.IBTP_RECEIPT_SUCCESS, pb.TransactionStatus_SUCCESS}} {
+		rt := rt
+		rcHub := &pb.IBTP{From: fromA, To: toHub, Index: 1, Type: rt.typ, Payload: pd}
+		add("hub-receipt-"+rt.name+"/signed-by-2-validators", preReqToHub, func(pw *preWorld) (pb.Transaction, bool, bool) {
+			c := *rcHub
+			return fix.IBTPTx(fix.KR, pw.w.N.Next(fix.KR), &c, fix.HubProof(&c, rt.st, rt.st, []string{"hubval-1", "hubval-2"})), true, true
+		})
+		add("hub-receipt-"+rt.name+"/carrying-the-signatures-made-for-the-request", preReqToHub, func(pw *preWorld) (pb.Transaction, bool, bool) {
+			c := *rcHub
+			req := *rcHub
+			req.Type = pb.IBTP_INTERCHAIN
+			return fix.IBTPTx(fix.KR, pw.w.N.Next(fix.KR), &c, fix.HubProof(&req, B, B, []string{"hubval-1", "hubval-2"})), false, true
+		})
+	}
+	otherType := *hubReq
+	otherType.Type = pb.IBTP_RECEIPT_SUCCESS
+	hub("2-registered-signed-same-ibtp-of-another-type", []string{"hubval-1", "hubval-2"}, B, B, &otherType, false)
 	other := *hubReq
 	other.Index = 2
 	hub("2-registered-signed-other-ibtp", []string{"hubval-1", "hubval-2"}, B, B, &other, false)
